@@ -46,7 +46,10 @@ def case(draw, tier):
     c = {"op": op, "table": tbl, "key": draw(st.sampled_from(keys)),
          "buffersize": draw(gen.buffersizes(len(tbl) - 1)),
          # the input may itself be a petl view: already sorted by the first key field (either direction), wrapped, cached
-         "upstream": draw(st.sampled_from(["none", "none", "sortfirst", "sortfirst-rev", "wrap", "sortall"]))}
+         "upstream": draw(st.sampled_from(["none", "none", "sortfirst", "sortfirst-rev", "wrap", "sortall"])),
+         # presorted=True on an input the harness has sorted by the key (a list of lists: the caller's own header and rows
+         # then reach the operator directly)
+         "presorted": draw(st.integers(0, 3)) == 0}
     if op == "conflicts":
         c["missing"] = draw(st.sampled_from([None, None] + p))
         c["fields"] = draw(st.sampled_from([None, ("exclude", hdr[-1]), ("include", hdr[-1]), ("include", list(hdr))]))
@@ -58,6 +61,19 @@ def _groups(tbl, key):
     idx = list(range(len(hdr))) if key is None else R.resolve(hdr, key)
     srt = R.ref_sort(tbl, key)
     return idx, srt
+
+
+class _PassDiffers(Exception):
+    pass
+
+
+def _rows2(view):
+    """Rows of the first pass; a second pass over the same view must give the same rows."""
+    a = [tuple(r) for r in view]
+    b = [tuple(r) for r in view]
+    if a != b:
+        raise _PassDiffers("second pass gave %r, first pass %r" % (b, a))
+    return a
 
 
 def check(case, ctx):
@@ -93,20 +109,24 @@ def check(case, ctx):
         T = etl.wrap(T)
     ctx.label("upstream:" + up)
     kw = {} if bs is None else {"buffersize": bs}
+    if case.get("presorted") and up == "none" and op != "isunique":
+        T = [list(r) for r in R.ref_sort(tbl, key)]
+        kw = {"presorted": True}
+        ctx.label("presorted")
     dup_exp = [r for r, k in zip(rows, kt) if mult[k] > 1]
     uniq_exp = [r for r, k in zip(rows, kt) if mult[k] == 1]
     try:
         if op == "duplicates":
-            got = [tuple(r) for r in etl.duplicates(T, key, **kw)]
+            got = _rows2(etl.duplicates(T, key, **kw))
             if got[:1] != [hdr] or Counter(got[1:]) != Counter(dup_exp):
                 return Fail("duplicates/rows", "duplicates(%r, %r) gave %r expected %r" % (tbl, key, got, dup_exp))
         elif op == "unique":
-            got = [tuple(r) for r in etl.unique(T, key, **kw)]
+            got = _rows2(etl.unique(T, key, **kw))
             if got[:1] != [hdr] or Counter(got[1:]) != Counter(uniq_exp):
                 return Fail("unique/rows", "unique(%r, %r) gave %r expected %r" % (tbl, key, got, uniq_exp))
         elif op == "partition":
-            d = [tuple(r) for r in etl.duplicates(T, key, **kw)][1:]
-            u = [tuple(r) for r in etl.unique(T, key, **kw)][1:]
+            d = _rows2(etl.duplicates(T, key, **kw))[1:]
+            u = _rows2(etl.unique(T, key, **kw))[1:]
             if Counter(d) + Counter(u) != Counter(rows):
                 return Fail("partition/not-a-partition", "duplicates %r + unique %r != rows %r" % (d, u, rows))
             if set(R.keytuple(r, idx) for r in d) & set(R.keytuple(r, idx) for r in u):
@@ -118,10 +138,10 @@ def check(case, ctx):
                     first[k] = r
                     order.append(k)
             if op == "distinct":
-                got = [tuple(r) for r in etl.distinct(T, key, **kw)]
+                got = _rows2(etl.distinct(T, key, **kw))
                 exp = [hdr] + [first[k] for k in order]
             else:
-                got = [tuple(r) for r in etl.distinct(T, key, count="n", **kw)]
+                got = _rows2(etl.distinct(T, key, count="n", **kw))
                 exp = [hdr + ("n",)] + [first[k] + (mult[k],) for k in order]
                 if sum(r[-1] for r in got[1:]) != len(rows):
                     return Fail("distinct/count-sum", "counts %r do not add up to %d rows" % ([r[-1] for r in got[1:]], len(rows)))
@@ -129,7 +149,7 @@ def check(case, ctx):
                 return Fail(op + "/rows", "%s(%r, %r) gave %r expected %r" % (op, tbl, key, got, exp))
         elif op == "isunique":
             got = etl.isunique(T, key)
-            d = [tuple(r) for r in etl.duplicates(T, key)][1:]
+            d = _rows2(etl.duplicates(T, key))[1:]
             if bool(got) != (not dup_exp) or bool(got) != (not d):
                 return Fail("isunique/verdict", "isunique(%r, %r)=%r, duplicates=%r, reference duplicates=%r" % (tbl, key, got, d, dup_exp))
         else:
@@ -141,7 +161,7 @@ def check(case, ctx):
                 fkw[how] = val
                 names = val if isinstance(val, list) else [val]
                 considered = [i for i, f in enumerate(hdr) if (f in names) == (how == "include")]
-            got = [tuple(r) for r in etl.conflicts(T, key, missing=missing, **dict(kw, **fkw))]
+            got = _rows2(etl.conflicts(T, key, missing=missing, **dict(kw, **fkw)))
             if got[:1] != [hdr]:
                 return Fail("conflicts/header", "got %r" % (got[:1],))
             out = got[1:]
@@ -172,6 +192,8 @@ def check(case, ctx):
                     n = sum(outc[r] for r in set(g))
                     if n < 2:
                         return Fail("conflicts/missed-group", "group %r disagrees without missing values but %d rows returned" % (g, n))
+    except _PassDiffers as ex:
+        return Fail(op + "/second-pass-differs", str(ex))
     except Exception as ex:
         return exc_fail(op, ex)
     return None
